@@ -2,7 +2,10 @@
 
 package vsched
 
-import "fmt"
+import (
+	"fmt"
+	"unsafe"
+)
 
 // Happens-before race detector on annotated accesses (T9). Vector clocks advance at the
 // program's own synchronisation only (unlock->lock, send->recv, close->recv, Go->start,
@@ -61,7 +64,15 @@ type accessRec struct {
 	reads  map[int][2]interface{} // thread -> {clock, pos}
 }
 
-func key(obj interface{}, field string) string { return fmt.Sprintf("%p.%s", obj, field) }
+type accessKey struct {
+	p uintptr
+	f string
+}
+
+func key(obj interface{}, field string) accessKey {
+	// the data word of the interface value: the pointer itself for pointer-shaped dynamic types
+	return accessKey{(*[2]uintptr)(unsafe.Pointer(&obj))[1], field}
+}
 
 // R annotates a read of (obj, field) by the current thread.
 func R(obj interface{}, field string) {
